@@ -147,33 +147,37 @@ structure Cls (Val : Type) where
 def isDefaultName (name : Str) : Bool :=
   endsWith name "_default".toList || endsWith name "_fix".toList
 
-/-- the priority loop of `Formatter.__init__` -/
-def priorityLoop {Val} (C : Cls Val) (formats : List (Str × Option Str)) (strict : Bool) (o : Obj) : R Obj :=
-  C.priorities.foldlM (fun (o : Obj) (entry : Str × List Nat) => do
-    let name := entry.1
-    let attr := splitFirst name ['_']
-    let getter := o.get attr
-    if C.truthy getter then
-      if !strict then pure o
-      else
-        match alookup name formats with
-        | some (some text) => do
-          let (p, o') ← C.conv name o text
-          if C.differs getter p then .error .fmtValue else pure o'
-        | some none => .error .pyType
-        | none => pure o
-    else if isDefaultName name then do
-      let (v, o') ← C.dflt name o
-      let lv ← levelUpdate o'.level entry.2
-      pure { (o'.set attr v) with level := lv }
+/-- one iteration of the priority loop of `Formatter.__init__` -/
+def prioStep {Val} (C : Cls Val) (formats : List (Str × Option Str)) (strict : Bool) (o : Obj)
+    (entry : Str × List Nat) : R Obj :=
+  let name := entry.1
+  let attr := splitFirst name ['_']
+  let getter := o.get attr
+  if C.truthy getter then
+    if !strict then pure o
     else
       match alookup name formats with
       | some (some text) => do
-        let (v, o') ← C.conv name o text
-        let lv ← levelUpdate o'.level entry.2
-        pure { (o'.set attr v) with level := lv }
+        let (p, o') ← C.conv name o text
+        if C.differs getter p then .error .fmtValue else pure o'
       | some none => .error .pyType
-      | none => pure o) o
+      | none => pure o
+  else if isDefaultName name then do
+    let (v, o') ← C.dflt name o
+    let lv ← levelUpdate o'.level entry.2
+    pure { (o'.set attr v) with level := lv }
+  else
+    match alookup name formats with
+    | some (some text) => do
+      let (v, o') ← C.conv name o text
+      let lv ← levelUpdate o'.level entry.2
+      pure { (o'.set attr v) with level := lv }
+    | some none => .error .pyType
+    | none => pure o
+
+/-- the priority loop of `Formatter.__init__` -/
+def priorityLoop {Val} (C : Cls Val) (formats : List (Str × Option Str)) (strict : Bool) (o : Obj) : R Obj :=
+  C.priorities.foldlM (prioStep C formats strict) o
 
 /-- `Formatter.__init__(formats, set_strict_mode)` -/
 def init {Val} (C : Cls Val) (gd : List (Str × Option Str)) (strict : Bool) : R Obj := do
@@ -192,15 +196,26 @@ def wrapValueErrors {α} (r : R α) : R α :=
   | .error .pyOverflow => .error .fmtValue
   | x => x
 
-/-- `cls.parse(value, fmt, strict=…)` -/
-def parse {Val} (C : Cls Val) (value : Str) (fmt : Option Str) (strict : Bool) : R Obj := do
-  let f := match fmt with | some f => if f.isEmpty then C.baseFmt else f | none => C.baseFmt
+/-- the compiled pattern `parse` searches with: `^` + `gen_format(fmt)` + `\Z` -/
+def patternFor {Val} (C : Cls Val) (f : Str) : R RE := do
   let table ← regexTable C.rows
   let g ← genFormat table f [] []
-  let r ← compileRe (Gen.parse_anchor_pre ++ g ++ Gen.parse_anchor_post)
+  compileRe (Gen.parse_anchor_pre ++ g ++ Gen.parse_anchor_post)
+
+/-- `fmt or cls.base_fmt` -/
+def fmtOrBase {Val} (C : Cls Val) (fmt : Option Str) : Str :=
+  match fmt with | some f => if f.isEmpty then C.baseFmt else f | none => C.baseFmt
+
+/-- what `parse` does once the pattern is compiled -/
+def parseWith {Val} (C : Cls Val) (r : RE) (value : Str) (strict : Bool) : R Obj :=
   match search r value with
   | none => .error .fmtValue
   | some (_, _, caps) => wrapValueErrors (init C (groupdict r caps) strict)
+
+/-- `cls.parse(value, fmt, strict=…)` -/
+def parse {Val} (C : Cls Val) (value : Str) (fmt : Option Str) (strict : Bool) : R Obj := do
+  let r ← patternFor C (fmtOrBase C fmt)
+  parseWith C r value strict
 
 /-- `self.format(fmt)` for a prepared value: escape `%%`, replace every token by its rendering
     (all occurrences), unescape -/
